@@ -1,5 +1,6 @@
 import Proofs.LinkLists
 import Proofs.LinkBagC03
+import Proofs.HeadlinesAll
 /-! C03 — link multigraph fidelity, in full (Proofs/LinkBag*): for every history of writes from a fresh index the
     out-list of `p` and the in-list of `q` hold the link `p → q` as many times as it was submitted
     (`C03_history`, `C03_symmetry`), self-links are stored on both sides and reported once as internal,
@@ -109,5 +110,56 @@ theorem C03_degrees_unweighted (cfg : Config) (dflt : Rule) (rules : List (Bytes
       ((State.fresh cfg dflt rules []).1.run ops).pageDegree p.flatten .deg false =
         outAll.length + inOther.length :=
   Traph.C03_degrees_unweighted cfg dflt rules ops hrules hop hwf hok p hp
+
+section EveryHistory
+open Traph State Pag Layout
+/-! ### every history (Proofs/Discipline, SinceClear, ReachableAll, HeadlinesAll) -/
+
+/-- EVERY HISTORY, `clear` and `reopen` included, no request assumed away: the only hypotheses are that byte strings cut into at least one stem (`OpWf`), rule anchors are whole LRUs (`rulesCanonical`, `Canon`) and the caller re-supplies on `reopen` the rules the index carries, as the API requires (`Disciplined`); `clear` acts as a reset (`sinceClear`).  -/
+theorem C03_history_all (cfg : Config) (dflt : Rule) (rules : List (Bytes × Rule)) (ops : List Op)
+    (hr : rulesCanonical rules) (hwf : ∀ op ∈ sinceClear ops, OpWf op)
+    (hd : Disciplined (State.fresh cfg dflt rules []).1 ops) :
+    (∀ p q, Submitted (sinceClear ops) p → Submitted (sinceClear ops) q → q ≠ p → ∀ n,
+      ((p.flatten, q.flatten, n) ∈ ((State.fresh cfg dflt rules []).1.run ops).pageLinks p.flatten false false true ↔
+        (0 < n ∧ n = nsub ((sinceClear ops).flatMap Op.links) p q)) ∧
+      ((p.flatten, q.flatten, n) ∈ ((State.fresh cfg dflt rules []).1.run ops).pageLinks q.flatten true false false ↔
+        (0 < n ∧ n = nsub ((sinceClear ops).flatMap Op.links) p q))) ∧
+    (∀ p, Submitted (sinceClear ops) p → ∀ incIn incOut n,
+      ((p.flatten, p.flatten, n) ∈ ((State.fresh cfg dflt rules []).1.run ops).pageLinks p.flatten incIn true incOut ↔
+        (0 < n ∧ n = nsub ((sinceClear ops).flatMap Op.links) p p)) ∧
+      (p.flatten, p.flatten, n) ∉ ((State.fresh cfg dflt rules []).1.run ops).pageLinks p.flatten incIn false incOut) ∧
+    (∀ p, Submitted (sinceClear ops) p → ∀ incIn incInt incOut,
+      (((State.fresh cfg dflt rules []).1.run ops).pageLinks p.flatten incIn incInt incOut).Nodup) :=
+  Traph.C03_history_all cfg dflt rules ops hr hwf hd
+
+/-- the same for the next clause of the property -/
+theorem C03_totals_all (cfg : Config) (dflt : Rule) (rules : List (Bytes × Rule)) (ops : List Op)
+    (hr : rulesCanonical rules) (hwf : ∀ op ∈ sinceClear ops, OpWf op)
+    (hd : Disciplined (State.fresh cfg dflt rules []).1 ops) :
+    ((State.fresh cfg dflt rules []).1.run ops).countLinks2 = 2 * ((sinceClear ops).flatMap Op.links).length ∧
+    (∀ x y, (x, y) ∈ ((State.fresh cfg dflt rules []).1.run ops).linksIter true ↔
+      (y, x) ∈ ((State.fresh cfg dflt rules []).1.run ops).linksIter false) ∧
+    (∀ x y, (x, y) ∈ ((State.fresh cfg dflt rules []).1.run ops).linksIter true ↔
+      ∃ st ∈ (sinceClear ops).flatMap Op.links, x = (lruIter st.1).flatten ∧ y = (lruIter st.2).flatten) ∧
+    (∀ p, Submitted (sinceClear ops) p →
+      ((State.fresh cfg dflt rules []).1.run ops).pageDegree p.flatten .outdeg true =
+        (((sinceClear ops).flatMap Op.links).filter (fun st => decide (lruIter st.1 = p ∧ lruIter st.2 ≠ p))).length ∧
+      ((State.fresh cfg dflt rules []).1.run ops).pageDegree p.flatten .indeg true =
+        (((sinceClear ops).flatMap Op.links).filter (fun st => decide (lruIter st.2 = p ∧ lruIter st.1 ≠ p))).length ∧
+      ((State.fresh cfg dflt rules []).1.run ops).pageDegree p.flatten .deg true =
+        (((sinceClear ops).flatMap Op.links).filter (fun st => decide (lruIter st.1 = p))).length +
+        (((sinceClear ops).flatMap Op.links).filter (fun st => decide (lruIter st.2 = p ∧ lruIter st.1 ≠ p))).length) :=
+  Traph.C03_totals_all cfg dflt rules ops hr hwf hd
+
+/-- the same for the next clause of the property -/
+theorem C03_symmetry_all (cfg : Config) (dflt : Rule) (rules : List (Bytes × Rule)) (ops : List Op)
+    (hr : rulesCanonical rules) (hwf : ∀ op ∈ sinceClear ops, OpWf op)
+    (hd : Disciplined (State.fresh cfg dflt rules []).1 ops) (a b : Nat) :
+    LinksOk ((State.fresh cfg dflt rules []).1.run ops) ∧
+    count b (((State.fresh cfg dflt rules []).1.run ops).outBag a) =
+      count a (((State.fresh cfg dflt rules []).1.run ops).inBag b) :=
+  Traph.C03_symmetry_all cfg dflt rules ops hr hwf hd a b
+
+end EveryHistory
 
 end Traph.Props
